@@ -39,6 +39,13 @@ fn base_requests() -> Vec<(String, Vec<u8>)> {
     let mut p = vec![15u8, 0x00, 0x00, 0x00, 0x40, 0x08];
     p.extend((0..8u8).map(|x| x.wrapping_mul(37) ^ 0x5A));
     v.push(("write_multi_coils_64".into(), rtu_frame(UNIT, &p)));
+    // the largest frames the protocol allows (255 bytes): the byte count that delimits them is > 0x7F
+    let mut p = vec![16u8, 0x00, 0x20, 0x00, 123, 246];
+    p.extend((0..246usize).map(|x| (x as u8).wrapping_mul(29) ^ 0xC3));
+    v.push(("write_multi_regs_123".into(), rtu_frame(UNIT, &p)));
+    let mut p = vec![15u8, 0x00, 0x20, 0x07, 0xB0, 246];
+    p.extend((0..246usize).map(|x| (x as u8).wrapping_mul(53) ^ 0x3C));
+    v.push(("write_multi_coils_1968".into(), rtu_frame(UNIT, &p)));
     v
 }
 
@@ -55,14 +62,28 @@ fn base_responses() -> Vec<(String, ClientReq, Vec<u8>)> {
         ClientReq::WriteMultiCoils { start: 0x10, values: vec![true; 10] },
         ClientReq::WriteMultiRegs { start: 0x10, values: vec![1, 2] },
         ClientReq::Read { kind: Kind::ReadHolding, start: 0, count: 20 },
+        // the largest responses (255 bytes)
+        ClientReq::Read { kind: Kind::ReadHolding, start: 0x20, count: 125 },
+        ClientReq::Read { kind: Kind::ReadCoils, start: 0x20, count: 2000 },
     ];
     for (unit, r) in [(248u8, ClientReq::Read { kind: Kind::ReadHolding, start: 0x10, count: 3 }), (255, ClientReq::WriteSingleReg { addr: 0x10, value: 0x1234 })] {
         v.push((format!("resp_{}_unit{unit}", r.kind().name()), r.clone(), rtu_frame(unit, &genuine_reply(&r, 77))));
         v.push((format!("exc_{}_unit{unit}", r.kind().name()), r.clone(), rtu_frame(unit, &[r.kind().fc() | 0x80, 0x02])));
     }
+    // exception replies with other codes than 02 (a flipped bit may turn one code into another)
+    for (code, r) in [(0x01u8, ClientReq::Read { kind: Kind::ReadCoils, start: 0x10, count: 19 }), (0x03, ClientReq::WriteSingleReg { addr: 0x10, value: 0x1234 }), (0x04, ClientReq::Read { kind: Kind::ReadInput, start: 0x10, count: 1 }), (0x0B, ClientReq::WriteMultiRegs { start: 0x10, values: vec![1, 2] })] {
+        v.push((format!("exc{code:02x}_{}", r.kind().name()), r.clone(), rtu_frame(UNIT, &[r.kind().fc() | 0x80, code])));
+    }
     for r in reqs {
         let pdu = genuine_reply(&r, 77);
-        v.push((format!("resp_{}", r.kind().name()), r.clone(), rtu_frame(UNIT, &pdu)));
+        let count = match &r {
+            ClientReq::Read { count, .. } => *count,
+            _ => 0,
+        };
+        v.push((format!("resp_{}{}", r.kind().name(), if count >= 125 { "_max" } else if count == 20 { "_20" } else { "" }), r.clone(), rtu_frame(UNIT, &pdu)));
+        if count >= 20 {
+            continue;
+        }
         // exception response
         v.push((
             format!("exc_{}", r.kind().name()),
@@ -114,7 +135,7 @@ fn corruptions(frame: &[u8], full: bool, rng: &mut Rng, budget: usize) -> Vec<Co
         v.push(Corruption::Bits(vec![i]));
     }
     // double-bit flips: all for short frames, sampled otherwise
-    if frame.len() <= 16 || full {
+    if frame.len() <= 16 || (full && frame.len() <= 80) {
         for i in 0..nbits {
             for j in (i + 1)..nbits {
                 v.push(Corruption::Bits(vec![i, j]));
@@ -605,7 +626,7 @@ pub fn run(args: &Args) -> i32 {
     let meta = Meta {
         property_id: "C06",
         level: "fault_enumeration",
-        rule: format!("one evaluation = one session receiving one corrupted RTU frame (after a sentinel). Base frames: 10 request frames (server role), 18 response / exception-response frames (client role). Corruptions per frame: ALL single-bit flips; ALL double-bit flips for frames <= 16 bytes{}; bursts of length 2..16 (first and last bit flipped, every interior pattern) at every bit offset{}; all 510 CRC-byte-only corruptions; delivered whole / byte-per-byte / randomly chunked. Oracle: independent reference receiver (function-derived length + bitwise CRC) decides accept/reject, then reference server / reference decoder. Emission: every RTU frame emitted by generated server sessions is re-parsed and CRC-checked. distinct = (role, base frame, corruption class, reference verdict, chunking)", if full { " (and longer ones)" } else { ", sampled for longer ones" }, if full { ", exhaustive for the 8-byte request frames" } else { ", sampled" }),
+        rule: format!("one evaluation = one session receiving one corrupted RTU frame (after a sentinel). Base frames: 14 request frames (server role) and 30 response / exception-response frames (client role; exception codes 01, 02, 03, 04, 0B), among them the 255-byte maxima (123 registers / 1968 coils written, 125 registers / 2000 coils read). Corruptions per frame: ALL single-bit flips; ALL double-bit flips for frames <= 16 bytes{}; bursts of length 2..16 (first and last bit flipped, every interior pattern) at every bit offset{}; all 510 CRC-byte-only corruptions; delivered whole / byte-per-byte / randomly chunked. Oracle: independent reference receiver (function-derived length + bitwise CRC) decides accept/reject, then reference server / reference decoder. Emission: every RTU frame emitted by generated server sessions is re-parsed and CRC-checked. distinct = (role, base frame, corruption class, reference verdict, chunking)", if full { " (and up to 80 bytes; sampled for the 255-byte frames)" } else { ", sampled for longer ones" }, if full { ", exhaustive for the 8-byte request frames" } else { ", sampled" }),
         assumptions: vec![
             "CRC reference: bitwise CRC-16/MODBUS self-checked against published vectors at start-up".into(),
             "behaviour after a rejected frame on the same session is unspecified; each corrupted frame gets its own session".into(),
